@@ -159,6 +159,14 @@ AddWorkload ==
        LET i == Len(world.workloads) + 1
        IN Step("AddWorkload", <<i>>, [world EXCEPT !.workloads = Append(@, MkWl(t, WlName(i), e))])
 
+(* the same application deployed in a second namespace: same workload name, kind, labels and ports *)
+AddTwinWorkload ==
+  /\ Len(world.workloads) < MaxWl /\ Len(world.workloads) > 0
+  /\ \E i \in Pick(DOMAIN world.workloads) :
+       \E ns \in Pick({world.namespaces[k].name : k \in DOMAIN world.namespaces} \ {world.workloads[i].ns}) :
+         /\ ~\E j \in DOMAIN world.workloads : world.workloads[j].ns = ns /\ world.workloads[j].name = world.workloads[i].name
+         /\ Step("AddTwinWorkload", <<i>>, [world EXCEPT !.workloads = Append(@, [world.workloads[i] EXCEPT !.ns = ns])])
+
 (* C17: same pod template, different controller kind / replicas / bare pods with one owner *)
 ReExpressWorkload ==
   \E i \in Pick(DOMAIN world.workloads) :
@@ -374,7 +382,7 @@ ExplicitPolicyTypes ==
 
 AddRuleAgain == AddRule      \* listed twice: TLC's simulator picks uniformly among the disjuncts of Next
 AddRuleOnceMore == AddRule
-NPNext == AddRuleAgain \/ AddRuleOnceMore \/ AddWorkload \/ RemoveWorkload \/ ReExpressWorkload \/ RelabelNamespace \/ AddPolicy \/ AddRule \/ AddPeer \/ AddPort
+NPNext == AddRuleAgain \/ AddRuleOnceMore \/ AddWorkload \/ AddTwinWorkload \/ RemoveWorkload \/ ReExpressWorkload \/ RelabelNamespace \/ AddPolicy \/ AddRule \/ AddPeer \/ AddPort
           \/ SetPolicyTypes \/ RemovePolicy \/ RespellPodSelAsIn \/ RespellPeerSelAsIn \/ SplitRange \/ SplitCidr
           \/ SplitPolicy \/ ExplicitPolicyTypes \/ MoveCidr \/ MoveCidrAgain \/ RemoveRule
 
@@ -466,7 +474,10 @@ SvcPortsCat ==
     <<SP("p1", 2, OptName("web")), SP("p2", 4, OptName("dns"))>>,
     <<SP("a", 4, OptNil), SP("b", 2, OptName("nosuch"))>>,
     <<SP("p1", 2, OptName("http")), SP("p2", 4, OptName("web"))>>,
-    <<SP("p1", 2, OptNil), SP("p2", 4, OptNil), SP("a", 1, OptNum(2))>> }
+    <<SP("p1", 2, OptNil), SP("p2", 4, OptNil), SP("a", 1, OptNum(2))>>,
+    \* mixed kinds of targetPort within one Service: named / numeric first, defaulted after, and the other way round
+    <<SP("p1", 2, OptName("http")), SP("p2", 4, OptNil)>>, <<SP("p1", 4, OptName("web")), SP("p2", 2, OptNil)>>,
+    <<SP("p1", 2, OptNum(4)), SP("p2", 4, OptNil)>>, <<SP("p1", 4, OptNil), SP("p2", 2, OptName("http"))>> }
 
 SvcName(i) == "svc" \o ToString(i)
 
@@ -518,13 +529,18 @@ TcpPorts(wl) == SelectSeq(wl.ports, LAMBDA cp : cp.proto = "TCP")
 DerivedSvcPorts(wl, v) ==
   [k \in 1..Len(TcpPorts(wl)) |->
      LET cp == TcpPorts(wl)[k]
+         explicit == IF cp.name = "" THEN OptNum(cp.port) ELSE OptName(cp.name)
      IN SP("p" \o ToString(k), cp.port,
-           IF v = 1 THEN OptNil ELSE IF v = 2 \/ cp.name = "" THEN OptNum(cp.port) ELSE OptName(cp.name))]
+           CASE v = 1 -> OptNil
+             [] v = 2 -> OptNum(cp.port)
+             [] v = 3 -> explicit
+             [] v = 4 -> IF k = 1 THEN explicit ELSE OptNil      \* mixed: explicit first, defaulted after
+             [] OTHER -> IF k = 1 THEN OptNil ELSE explicit)]
 
 AddServiceFor ==
   /\ Len(world.services) < 3
   /\ \E i \in Pick({j \in DOMAIN world.workloads : Len(TcpPorts(world.workloads[j])) > 0 /\ DOMAIN world.workloads[j].labels # {}}),
-        v \in Pick(1..3) :
+        v \in Pick(1..5) :
        LET wl == world.workloads[i]
            n == Len(world.services) + 1
        IN Step("AddService", <<n>>,
